@@ -97,6 +97,99 @@ def build_cvt(ck, flags=('-O1', '-g', '-DNDEBUG')):
     return ck.link('h_plcvt', ck.objects([src], flags=flags, tag='c13cvt') + objs)
 
 
+NL_TEMPLATE = """g3 1 1 0	# problem
+ 1 0 1 0 0	# vars, constraints, objectives, ranges, eqns
+ 0 1	# nonlinear constraints, objectives
+ 0 0	# network constraints: nonlinear, linear
+ 0 1 0	# nonlinear vars in constraints, objectives, both
+ 0 0 0 1	# linear network variables; functions; arith, flags
+ 0 0 0 0 0	# discrete variables: binary, integer, nonlinear (b,c,o)
+ 0 1	# nonzeros in Jacobian, gradients
+ 0 0	# max name lengths: constraints, variables
+ 0 0 0 0 0	# common exprs: b,c,o,c1,o1
+O0 0
+o%d
+v0
+b
+0 %r %r
+k0
+G0 1
+0 -3
+"""
+
+
+def options_stage(ck):
+    """the option plumbing cvt:plapprox:reltol / cvt:plapprox:domain -> PLApproximate, through the real MIPFlatConverter
+    (harness/recsolver, every constraint type accepted except the function itself): the PLConstraint DELIVERED to the
+    ModelAPI must be within the REQUESTED tolerance on the REQUESTED domain (intersected with the variable bounds)"""
+    import math
+    import recsolver as Rr
+    exe = Rr.build(ck)
+    wdir = os.path.join(BUILD, 'c13opt')
+    os.makedirs(wdir, exist_ok=True)
+    funcs = [('exp', 44, math.exp, -3.0, 8.0), ('log', 43, math.log, 0.5, 60.0), ('atan', 49, math.atan, -30.0, 30.0),
+             ('sinh', 40, math.sinh, -4.0, 6.0), ('tanh', 37, math.tanh, -4.0, 5.0), ('asinh', 50, math.asinh, -40.0, 25.0)]
+    fams = [('default', [], 1e-2, 1e6), ('reltol', ['cvt:plapprox:reltol=0.001'], 1e-3, 1e6),
+            ('domain', ['cvt:plapprox:domain=10'], 1e-2, 10.0),
+            ('reltol-then-domain', ['cvt:plapprox:reltol=0.001', 'cvt:plapprox:domain=10'], 1e-3, 10.0),
+            ('domain-then-reltol', ['cvt:plapprox:domain=10', 'cvt:plapprox:reltol=0.001'], 1e-3, 10.0),
+            ('alias', ['plapprox:domain=5', 'plapproxreltol=0.05'], 5e-2, 5.0)]
+    if ck.tier == 'thorough':
+        fams += [('domain-2', ['plapproxdomain=2.5'], 1e-2, 2.5), ('reltol-1e-4', ['plapprox:reltol=0.0001'], 1e-4, 1e6)]
+    n = 0
+    hist = {}
+    for fn, opc, f, lb, ub in funcs:
+        stub = os.path.join(wdir, fn)
+        open(stub + '.nl', 'w').write(NL_TEMPLATE % (opc, lb, ub))
+        for fam, opts, tol, dom in fams:
+            r = Rr.run(exe, stub, options=['acc:%s=0' % fn] + opts, accept='ALL', timeout=120)
+            case = {'function': fn, 'x_bounds': [lb, ub], 'options': opts, 'requested_tolerance': tol, 'requested_domain': dom,
+                    'how': 'RECSOLVER_ACCEPT=ALL %s %s -AMPL acc:%s=0 %s' % (exe, stub, fn, ' '.join(opts))}
+            pls = [e for e in r['log'] if e.get('ev') == 'con' and e.get('type') == 'PLConstraint']
+            vs = [e for e in r['log'] if e.get('ev') == 'vars']
+            if r['rc'] != 0 or len(pls) != 1 or not vs:
+                ck.add_violation('options:%s:no-plconstraint' % fam, '%s with %s: the driver delivered %d PLConstraints (rc %s): %s' % (fn, opts, len(pls), r['rc'], (r['err'] or '')[-200:]), case)
+                continue
+            n += 1
+            X = [float(Rr.num(t)) for t in pls[0]['data']['params']['x']]
+            Y = [float(Rr.num(t)) for t in pls[0]['data']['params']['y']]
+            arg = pls[0]['data']['args'][0]
+            xl, xu = float(Rr.num(vs[0]['lb'][arg])), float(Rr.num(vs[0]['ub'][arg]))
+            sig = None
+            # (a) the requested domain is applied: final bounds of x and all PL values within +-domain (float slack)
+            sl = 1e-6 * max(1.0, dom)
+            if xl < -dom - sl or xu > dom + sl or min(X) < -dom - sl or max(X) > dom + sl or min(Y) < -dom * (1 + 2 * tol) - sl or max(Y) > dom * (1 + 2 * tol) + sl:
+                sig = ('domain-not-applied', 'final bounds of x [%r, %r], PL x-range [%r, %r], y-range [%r, %r] exceed the requested +-%r' % (xl, xu, min(X), max(X), min(Y), max(Y), dom))
+            # (b) the requested tolerance on the final domain of x (known merge-rule classes excluded by segment width)
+            worst, wx, ww = 0.0, None, 0.0
+            N = 4000
+            for k in range(N + 1):
+                x = xl + (xu - xl) * k / N
+                j = 0
+                while j + 2 < len(X) and x > X[j + 1]:
+                    j += 1
+                y = Y[0] if len(X) == 1 else Y[j] + (Y[j + 1] - Y[j]) * (x - X[j]) / (X[j + 1] - X[j])
+                fv = f(x)
+                e = abs(fv - y) / (abs(fv) if abs(fv) > 1 else 1.0) / tol
+                if e > worst:
+                    worst, wx, ww = e, x, (X[j + 1] - X[j]) if len(X) > 1 else 0.0
+            if worst > 1.02 and sig is None:
+                outside = wx < X[0] or wx > X[-1]
+                cls = 'outside-breakpoints' if outside and min(abs(wx - X[0]), abs(wx - X[-1])) <= 2e-4 + 1e-6 * abs(wx) else ('min-spacing' if (ww <= 1e-3 and not outside) else 'requested-tolerance-exceeded')
+                if cls == 'requested-tolerance-exceeded':
+                    sig = (cls, '|f - PL| is %.4g x the REQUESTED tolerance %r at x=%r (%d breakpoints on [%r, %r])' % (worst, tol, wx, len(X), X[0], X[-1]))
+                else:
+                    hist['known:' + cls] = hist.get('known:' + cls, 0) + 1
+                    ck.add_violation('tol:%s:%s' % (fn, cls), 'through the driver with %s: %.4g x tolerance at x=%r' % (opts, worst, wx), case)
+            hist[fam] = hist.get(fam, 0) + 1
+            if sig:
+                ck.add_violation('options:%s:%s' % (fam, sig[0]), '%s on x in [%r, %r] with options %s: the PLConstraint delivered to the ModelAPI: %s' % (fn, lb, ub, opts or '(defaults)', sig[1]), case)
+    if n < len(funcs) * 5:
+        ck.add_violation('options-stage-missing', 'only %d PLConstraints observed through the driver' % n, {}, found_input=False)
+    ck.cov['options_stage'] = {'plconstraints_observed_at_the_model_api': n, 'by_option_family': hist}
+    return n
+
+
 def converter_stage(ck):
     """the real FuncConConverter_MIP / PowConstExponentConverter_MIP / PLConverter_MIP on a recording model converter"""
     exe = build_cvt(ck)
@@ -316,7 +409,7 @@ def run(ck):
     # proof-only modules that need Mathlib (not imported by the driver): the chord-error lemma over the reals, and
     # monotonicity / idempotence of the model's concrete rounding functions => C13_increasing for the IEEE instance
     extra_thms = []
-    for mod, nmin in (('MpVerif.C13.PropsGen', 14), ('MpVerif.C13.PropsIEEE', 8), ('MpVerif.C13.Chord', 5), ('MpVerif.C13.ChordRun', 5)):
+    for mod, nmin in (('MpVerif.C13.PropsGen', 15), ('MpVerif.C13.PropsIEEE', 8), ('MpVerif.C13.Chord', 5), ('MpVerif.C13.ChordRun', 5)):
         okm, outm = ck.lake([mod])
         if not okm:
             bad_decls = ck.failing_decls(outm, mod.replace('.', '/') + '.lean')
@@ -603,6 +696,7 @@ def run(ck):
                               'searched': '%d implementation cases' % len(O)}, found_input=False)
 
     n_cvt = converter_stage(ck)
+    n_cvt += options_stage(ck)
 
     # which arms of the Lean model the replayed (bit-exactly agreeing) stream exercises: inferred from the oracle tables
     # and outputs of the replayed cases (the driver itself has no counters: it contains no logic of its own)
